@@ -496,7 +496,9 @@ def evaluate__ceiling_and_floor_functions(self: XPathFunction, context: ta.Conte
         arg = self.cast_to_double(arg.value)  # function conversion rules: cast to xs:double
 
     try:
-        if math.isnan(arg) or math.isinf(arg):
+        if isinstance(arg, int) and not isinstance(arg, bool):
+            return arg  # an integer of any size
+        elif math.isnan(arg) or math.isinf(arg):
             assert isinstance(arg, (int, float, decimal.Decimal))
             return arg
 
